@@ -277,7 +277,8 @@ def nontrivial_key(hist):
 
 
 def signature(hist, clause, i):
-    """One defect, one signature: clause + the api of the call it failed at + whether a message / negation was involved."""
+    """One defect, one signature: clause + the api of the call it failed at (for assertThat / assert_that: + the matcher,
+    with its negation) + whether it showed only inside the test run."""
     prog = hist[0]["arg"]
     h = hist[i]
     if h["a"] == "call":
